@@ -426,3 +426,247 @@ Proof.
       * unfold desc_sizesize in *; lia.
       * unfold desc_sizesize in *; lia.
 Qed.
+
+(* ------------------------------------------------------------------ DecodeESDescriptor inverts EncodeSW *)
+Definition es_depth (e : esd) : nat := Nat.max (desc_depth (es_dcd e)) (depths_max (es_children e)).
+
+(* optional fields present exactly when their flag is set (and zero / empty otherwise, as the decoder leaves
+   them); the first descriptor is a DecoderConfigDescriptor; at most one trailing unknown byte *)
+Definition es_wf (e : esd) : bool :=
+  fits (es_size_of e) (es_sfs e) && (es_id e <? 65536)
+  && (if es_flags e / 128 =? 1 then es_dep e <? 65536 else es_dep e =? 0)
+  && (if (es_flags e / 64) mod 2 =? 1 then lenN (es_url e) <? 256 else lenN (es_url e) =? 0)
+  && (if (es_flags e / 32) mod 2 =? 1 then es_ocr e <? 65536 else es_ocr e =? 0)
+  && (match es_dcd e with DDcd _ _ _ _ _ _ _ _ => true | _ => false end)
+  && desc_wf (es_dcd e) && descs_wf (es_children e) && (lenN (es_unknown e) <=? 1).
+
+Ltac zbool :=
+  repeat match goal with
+         | |- context [(?a =? ?b)%Z] =>
+             first [replace (a =? b)%Z with false by (unfold desc_sizesize in *; lia)
+                   |replace (a =? b)%Z with true by (unfold desc_sizesize in *; lia)]
+         | |- context [(?a <? ?b)%Z] =>
+             first [replace (a <? b)%Z with false by (unfold desc_sizesize in *; lia)
+                   |replace (a <? b)%Z with true by (unfold desc_sizesize in *; lia)]
+         end.
+
+Lemma decode_es_ok fuel e rest p :
+  (es_depth e <= fuel)%nat -> es_wf e = true ->
+  decode_es_f fuel (mkSl (encode_es e ++ rest) p false) = (Ok e, mkSl rest (p + es_sizesize e) false).
+Proof.
+  destruct e as [sfs id flags dep url ocr dcd cs u].
+  unfold es_depth, es_wf, es_sizesize. cbn [es_sfs es_id es_flags es_dep es_url es_ocr es_dcd es_children es_unknown].
+  intros Hd Hw.
+  apply andb_prop in Hw. destruct Hw as [Hw Hu].
+  apply andb_prop in Hw. destruct Hw as [Hw Hcs].
+  apply andb_prop in Hw. destruct Hw as [Hw Hdw].
+  apply andb_prop in Hw. destruct Hw as [Hw Hisd].
+  apply andb_prop in Hw. destruct Hw as [Hw Hocr].
+  apply andb_prop in Hw. destruct Hw as [Hw Hurl].
+  apply andb_prop in Hw. destruct Hw as [Hw Hdep].
+  apply andb_prop in Hw. destruct Hw as [Hf Hid].
+  apply N.ltb_lt in Hid. apply N.leb_le in Hu.
+  destruct (fits_small _ _ Hf) as [Hs Hz].
+  pose proof (Nat.le_max_l (desc_depth dcd) (depths_max cs)) as Hmx1.
+  pose proof (Nat.le_max_r (desc_depth dcd) (depths_max cs)) as Hmx2.
+  pose proof (desc_depth_pos dcd) as Hpos.
+  destruct fuel as [|fu]; [lia|].
+  assert (Hdd : forall x, In x (dcd :: cs) -> dd_ok (decode_desc (S fu)) x).
+  { intros x Hx rest' p' maxNr' Hm'. apply decode_desc_ok; [|..|exact Hm'].
+    - destruct Hx as [<- | Hx]; [lia|]. pose proof (depths_max_le cs x Hx). lia.
+    - destruct Hx as [<- | Hx]; [exact Hdw|]. now apply (descs_wf_in cs). }
+  pose proof (desc_sizesize_ge2 dcd) as H2.
+  unfold decode_es_f, encode_es, es_size_of, es_opt_size in *.
+  cbn [es_sfs es_id es_flags es_dep es_url es_ocr es_dcd es_children es_unknown] in *.
+  rewrite <- !app_assoc. cbn [app]. rewrite sr_u8_cons. change (negb (3 =? 3)) with false. cbv beta iota.
+  rewrite read_size_ok by exact Hf. cbn [s_pos].
+  rewrite sr_u16_be16 by exact Hid. rewrite sr_u8_cons.
+  destruct (flags / 128 =? 1); destruct ((flags / 64) mod 2 =? 1); destruct ((flags / 32) mod 2 =? 1);
+    try (apply N.ltb_lt in Hdep); try (apply N.eqb_eq in Hdep; subst dep);
+    try (apply N.ltb_lt in Hurl); try (apply N.eqb_eq in Hurl; destruct url as [|? ?]; [|rewrite lenN_cons in Hurl; lia]);
+    try (apply N.ltb_lt in Hocr); try (apply N.eqb_eq in Hocr; subst ocr);
+    cbn [app]; change (lenN (@nil N)) with 0 in *;
+    rewrite ?sr_u16_be16 by assumption;
+    rewrite ?sr_u8_cons; rewrite ?(N.mod_small (lenN url) 256) by assumption;
+    rewrite ?(sr_take_app url) by reflexivity;
+    rewrite ?sr_u16_be16 by assumption;
+    cbn [s_pos]; rewrite int_of_u64_small by lia;
+    (rewrite (Hdd dcd (or_introl eq_refl)) by (unfold desc_sizesize in *; lia));
+    destruct dcd as [a0 b0 c0 d0 e0 f0 g0 h0 | | | ]; try discriminate;
+    cbv beta iota; cbn [s_pos];
+    (destruct cs as [|c cs];
+     [ (* no further descriptor: UnknownData *)
+       cbn [encode_descs sizes_sum app] in *;
+       rewrite (decode_desc_small fu) by (unfold desc_sizesize in *; lia);
+       unfold sl_restore; cbn [s_rem s_pos s_err];
+       match goal with |- context [sr_bytes ?n _] => replace n with (Z.of_N (lenN u)) by (unfold desc_sizesize in *; lia) end;
+       rewrite sr_bytes_app; f_equal; f_equal; unfold desc_sizesize; lia
+     | cbn [encode_descs sizes_sum] in *; rewrite <- !app_assoc;
+       pose proof (desc_sizesize_ge2 c) as H2c;
+       (rewrite (Hdd c (or_intror (or_introl eq_refl))) by (unfold desc_sizesize in *; lia));
+       (rewrite (desc_loop_ok (decode_desc (S fu)) (decode_desc_small fu) cs);
+        [ destruct (lenN u =? 0) eqn:Eu;
+          [ apply N.eqb_eq in Eu; destruct u as [|? ?]; [|rewrite lenN_cons in Eu; lia];
+            cbn [rev app es_sfs es_id es_flags es_dep es_url es_ocr es_dcd es_children es_unknown sizes_sum];
+            change (lenN (@nil N)) with 0; rewrite N.eqb_refl; cbn [negb s_err];
+            f_equal; f_equal; unfold desc_sizesize; lia
+          | cbn [rev app]; f_equal; f_equal; unfold desc_sizesize; lia ]
+        | apply Forall_forall; intros x Hx; apply Hdd; right; right; exact Hx
+        | cbn [s_rem]; rewrite app_length; pose proof (encode_descs_length cs); lia
+        | exact Hu
+        | unfold desc_sizesize in *; lia
+        | unfold desc_sizesize in *; lia ]) ]).
+Qed.
+
+(* ------------------------------------------------------------------ the self-fuelled entry points *)
+Lemma depths_max_enc cs :
+  (forall c, In c cs -> (desc_depth c <= length (encode_desc c))%nat) ->
+  (depths_max cs <= length (encode_descs cs))%nat.
+Proof.
+  induction cs as [|c r IH]; intros H; [cbn; lia|].
+  cbn [depths_max encode_descs]. rewrite app_length.
+  pose proof (H c (or_introl eq_refl)). specialize (IH (fun x Hx => H x (or_intror Hx))). lia.
+Qed.
+
+Lemma desc_depth_le_length : forall n d, (desc_depth d <= n)%nat -> (desc_depth d <= length (encode_desc d))%nat.
+Proof.
+  induction n as [|n IH]; intros d Hd.
+  - pose proof (desc_depth_pos d). lia.
+  - destruct d as [sfs ot st buf maxbr avgbr cs u | sfs dc | sfs cv more | tag sfs data];
+      try (cbn [desc_depth encode_desc app length]; lia).
+    rewrite dcd_depth_eq in *. rewrite dcd_encode_eq.
+    assert (H : (depths_max cs <= length (encode_descs cs))%nat).
+    { apply depths_max_enc. intros c Hc. apply IH. pose proof (depths_max_le cs c Hc). lia. }
+    cbn [app length]. rewrite !app_length. cbn [length]. rewrite !app_length. lia.
+Qed.
+
+Lemma es_depth_le_length e rest : (es_depth e <= S (length (encode_es e ++ rest)))%nat.
+Proof.
+  unfold es_depth, encode_es.
+  pose proof (desc_depth_le_length _ (es_dcd e) (le_n _)) as H1.
+  assert (H2 : (depths_max (es_children e) <= length (encode_descs (es_children e)))%nat).
+  { apply depths_max_enc. intros c _. apply (desc_depth_le_length _ c (le_n _)). }
+  rewrite !app_length. lia.
+Qed.
+
+(* mp4.DecodeESDescriptor on a reader holding the encoding of a well-formed value (and anything after it) *)
+Lemma es_descriptor_roundtrip e rest :
+  es_wf e = true ->
+  decode_es_descriptor (encode_es e ++ rest) = (Ok e, mkSl rest (es_sizesize e) false).
+Proof.
+  intros Hw. unfold decode_es_descriptor, sl_init.
+  rewrite decode_es_ok; [reflexivity|apply es_depth_le_length|exact Hw].
+Qed.
+
+Lemma descriptor_roundtrip d rest maxNr :
+  desc_wf d = true -> (Z.of_N (desc_sizesize d) <= maxNr)%Z ->
+  decode_descriptor maxNr (encode_desc d ++ rest) = (Ok d, mkSl rest (desc_sizesize d) false).
+Proof.
+  intros Hw Hm. unfold decode_descriptor, sl_init.
+  rewrite decode_desc_ok; [reflexivity| |exact Hw|exact Hm].
+  pose proof (desc_depth_le_length _ d (le_n _)). rewrite app_length. lia.
+Qed.
+
+(* DecodeEsds on the body of the box EsdsBox.Encode writes *)
+Lemma esds_body_roundtrip vf e :
+  vf < 4294967296 -> es_wf e = true -> decode_esds_body (be32 vf ++ encode_es e) = Ok (vf, e).
+Proof.
+  intros Hv Hw. unfold decode_esds_body, sl_init. rewrite sr_u32_be32 by exact Hv.
+  rewrite <- (app_nil_r (encode_es e)).
+  rewrite decode_es_ok; [reflexivity| |exact Hw].
+  pose proof (es_depth_le_length e []). rewrite !app_length in *. cbn [length] in *. lia.
+Qed.
+
+(* whatever well-formed shape the esds has, the configuration it carries as DecoderSpecificInfo comes back *)
+Definition es_carries (e : esd) (a : asc) : bool :=
+  match es_dec_config e, encode_asc a with
+  | Some dc, Ok bs => list_eqb dc bs
+  | _, _ => false
+  end.
+
+Lemma list_eqb_eq : forall a b, list_eqb a b = true -> a = b.
+Proof.
+  unfold list_eqb. induction a as [|x a IH]; intros [|y b] H; try reflexivity.
+  - apply andb_prop in H. destruct H as [H _]. apply N.eqb_eq in H. rewrite lenN_cons, lenN_nil in H. lia.
+  - apply andb_prop in H. destruct H as [H _]. apply N.eqb_eq in H. rewrite lenN_cons, lenN_nil in H. lia.
+  - apply andb_prop in H. destruct H as [Hl Hf]. cbn [combine forallb] in Hf.
+    apply andb_prop in Hf. destruct Hf as [Hx Hf]. apply N.eqb_eq in Hx. subst y. f_equal.
+    apply IH. apply N.eqb_eq in Hl. rewrite !lenN_cons in Hl.
+    replace (lenN a =? lenN b) with true by (symmetry; apply N.eqb_eq; lia). exact Hf.
+Qed.
+
+Definition esds_asc (body : list N) : res asc :=
+  match decode_esds_body body with
+  | Ok (_, e) => match es_dec_config e with Some dc => decode_asc dc | None => Err end
+  | Err => Err
+  | Panic => Panic
+  | OutOfFuel => OutOfFuel
+  end.
+
+Lemma esds_config_roundtrip vf e a :
+  vf < 4294967296 -> es_wf e = true -> canonical a = true -> es_carries e a = true ->
+  esds_asc (be32 vf ++ encode_es e) = Ok a.
+Proof.
+  intros Hv Hw Hc Hcar. unfold esds_asc. rewrite esds_body_roundtrip by assumption.
+  unfold es_carries in Hcar. destruct (es_dec_config e) as [dc|]; [|discriminate].
+  pose proof (asc_roundtrip a Hc) as Hrt.
+  destruct (encode_asc a) as [bs| | |]; try discriminate.
+  apply list_eqb_eq in Hcar. subst dc. exact Hrt.
+Qed.
+
+(* the esds SetAACDescriptor builds (C18EntryModel.es_bytes) is one of these shapes *)
+Definition aac_esd (dc : list N) : esd :=
+  mkEsd 0 1 0 0 [] 0 (DDcd 0 64 21 0 0 0 [DDsi 0 dc] []) [DSlc 0 2 []] [].
+
+Lemma aac_esd_bytes dc : encode_es (aac_esd dc) = es_bytes dc.
+Proof.
+  unfold encode_es, aac_esd, es_bytes, dcd_bytes, dsi_bytes, slc_bytes, es_size_of, es_opt_size, es_size, dcd_size.
+  cbn [es_sfs es_id es_flags es_dep es_url es_ocr es_dcd es_children es_unknown].
+  change (0 / 128 =? 1) with false. change ((0 / 64) mod 2 =? 1) with false. change ((0 / 32) mod 2 =? 1) with false.
+  cbv beta iota. rewrite dcd_encode_eq. cbn [encode_descs encode_desc sizes_sum app].
+  unfold desc_sizesize. cbn [desc_sfs desc_size_of]. change (lenN (@nil N)) with 0.
+  change (N.to_nat 0) with 0%nat.
+  change (N.lor ((21 * 16777216) mod 4294967296) 0) with (21 * 16777216).
+  rewrite <- !app_assoc. cbn [app].
+  replace (3 + (0 + 0 + 0) + (1 + 0 + 1 + (13 + (1 + 0 + 1 + lenN dc + 0) + 0)) + (1 + 0 + 1 + (1 + 0) + 0) + 0)
+    with (3 + (2 + (13 + (2 + lenN dc))) + 3) by lia.
+  replace (13 + (1 + 0 + 1 + lenN dc + 0) + 0) with (13 + (2 + lenN dc)) by lia.
+  replace (1 + 0) with 1 by lia.
+  rewrite app_nil_r. reflexivity.
+Qed.
+
+Lemma aac_esd_wf dc : lenN dc <= 100 -> es_wf (aac_esd dc) = true.
+Proof.
+  intros H. unfold es_wf, aac_esd, es_size_of, es_opt_size.
+  cbn [es_sfs es_id es_flags es_dep es_url es_ocr es_dcd es_children es_unknown].
+  rewrite dcd_wf_eq. cbn [descs_wf desc_wf sizes_sum]. unfold desc_sizesize. cbn [desc_sfs desc_size_of].
+  change (lenN (@nil N)) with 0.
+  change (0 / 128 =? 1) with false. change ((0 / 64) mod 2 =? 1) with false. change ((0 / 32) mod 2 =? 1) with false.
+  cbv beta iota.
+  unfold fits. change (2 ^ (7 * (0 + 1))) with 128.
+  repeat match goal with
+         | |- context [?a <? ?b] => replace (a <? b) with true by (symmetry; apply N.ltb_lt; lia)
+         | |- context [?a <=? ?b] => replace (a <=? b) with true by (symmetry; apply N.leb_le; lia)
+         end.
+  reflexivity.
+Qed.
+
+(* the esds of the entry SetAACDescriptor builds, read by the GENERAL descriptor decoder *)
+Lemma set_aac_esds_general ot f :
+  entry_freq_ok ot f = true ->
+  exists dc, encode_asc (set_aac_asc ot f) = Ok dc
+             /\ encode_es (aac_esd dc) = es_bytes dc
+             /\ esds_asc (be32 0 ++ es_bytes dc) = Ok (set_aac_asc ot f).
+Proof.
+  intros H. pose proof (set_aac_asc_canonical ot f H) as Hc.
+  assert (He : encode_asc (set_aac_asc ot f) = Ok (pack (flush (asc_bits (set_aac_asc ot f))))).
+  { unfold canonical in Hc. unfold encode_asc.
+    repeat (apply andb_prop in Hc; destruct Hc as [Hc _]). now rewrite Hc. }
+  exists (pack (flush (asc_bits (set_aac_asc ot f)))).
+  split; [exact He|]. split; [apply aac_esd_bytes|].
+  rewrite <- aac_esd_bytes. apply esds_config_roundtrip.
+  - reflexivity.
+  - apply aac_esd_wf. apply asc_bytes_short.
+  - exact Hc.
+  - unfold es_carries, aac_esd, es_dec_config. cbn [es_dcd]. rewrite He. apply list_eqb_refl.
+Qed.
